@@ -133,15 +133,27 @@ def drv(text, prep, stack, inplace, stub, ctx):
     return lib, out, ctx["before"], snap(lib)
 
 
-def drv_write(text, prep):
+def drv_write(text, prep, how="default"):
     lib = prepare(text, prep)
     fmt = BibtexFormat()
     fmt.value_column = "auto"
     fb = dict(fmt.__dict__)
     before = snap(lib)
-    t1 = bibtexparser.write_string(lib, bibtex_format=fmt)
+    if how == "default":
+        kw = {}
+    elif how == "empty-prepend":
+        kw = {"prepend_middleware": []}
+    elif how == "copy-prepend":
+        kw = {"prepend_middleware": [make_mw("sortalpha", False, None)]}
+    else:
+        kw = {"unparse_stack": [make_mw("add{", False, None)]}
+    t1 = bibtexparser.write_string(lib, bibtex_format=fmt, **kw)
     mid = snap(lib)
-    t2 = bibtexparser.write_string(lib, bibtex_format=fmt)
+    if how == "copy-prepend":
+        kw = {"prepend_middleware": [make_mw("sortalpha", False, None)]}
+    elif how == "stack":
+        kw = {"unparse_stack": [make_mw("add{", False, None)]}
+    t2 = bibtexparser.write_string(lib, bibtex_format=fmt, **kw)
     return before, mid, snap(lib), t1, t2, fb, dict(fmt.__dict__)
 
 
@@ -192,7 +204,8 @@ def sym_doc(eng):
     k1 = eng.sym_str("k1_", 1, "ab")
     k2 = eng.sym_str("k2_", 1, "ab")
     tail = eng.sym_str("t", 2, SIGMA_S)
-    text = mk(tuple("@string{s = {v}}\n@a{") + chars(k1) + tuple(", author = {A and B}, month = 1, t = s}\n@a{") + chars(k2) +
+    nm = eng.sym_str("n", 1, "x,")       # 'B,' (trailing comma) is an invalid name, 'Bx' a valid one
+    text = mk(tuple("@string{s = {v}}\n@a{") + chars(k1) + tuple(", author = {A and B") + chars(nm) + tuple("}, month = 1, t = s}\n@a{") + chars(k2) +
               tuple(", T = x, t = y}\n@b{d, t = 1, t = 2}\n") + chars(tail))
     return text
 
@@ -270,19 +283,19 @@ def task(prep, stack):
     return rec.result(worlds=len(worlds))
 
 
-def task_write(prep):
+def task_write(prep, how="default"):
     eng = Engine()
     rec = Recorder(eng)
     text = sym_doc(eng)
     E = eng.I.models.eq_simple
-    worlds = eng.run(drv_write, [text, prep])
+    worlds = eng.run(drv_write, [text, prep, how])
 
     def rp(m):
         import logging
         logging.disable(logging.CRITICAL)
         t = eng.model_str(m, text)
         try:
-            r = drv_write(t, prep)
+            r = drv_write(t, prep, how)
         except Exception as ex:  # noqa
             return {"input": [t, prep], "observed": f"raised {type(ex).__name__}: {ex}", "expected": "text twice"}
         if r[0] == r[1] == r[2] and r[3] == r[4] and r[5] == r[6]:
@@ -300,12 +313,13 @@ def task_write(prep):
     return rec.result(worlds=len(worlds))
 
 
-PREPS = {"raw": (), "default": ("resolve", "remove"), "names": ("resolve", "remove", "separate", "splitnames")}
+PREPS = {"raw": (), "default": ("resolve", "remove"), "separated": ("resolve", "remove", "separate"),
+         "names": ("resolve", "remove", "separate", "splitnames")}
 
 
 def main():
     chk = Check("C07", __doc__)
-    chk.bounds = {"input libraries": "parse of '@string{s={v}} @a{K1, author={A and B}, month=1, t=s} @a{K2, T=x, t=y} @b{d, t=1, t=2}' + 2 symbolic characters, K1/K2 symbolic over {a,b}; as split, after the default stack, and after name separation + splitting (list / NameParts values)",
+    chk.bounds = {"input libraries": "parse of '@string{s={v}} @a{K1, author={A and BN}, month=1, t=s} (N symbolic: a valid or an invalid name) @a{K2, T=x, t=y} @b{d, t=1, t=2}' + 2 symbolic characters, K1/K2 symbolic over {a,b}; as split, after the default stack, and after name separation + splitting (list / NameParts values)",
                   "middlewares": NAMES, "stacks": "every single middleware on every prepared input; " + ("all ordered pairs" if chk.tier == "thorough" else "selected pairs") + " on the default-stack input",
                   "allow_inplace_modification": "symbolic boolean"}
     chk.assumptions = ["exception objects stored in failed blocks are shared on purpose (immutables, exceptions.py) and excluded from the aliasing walk",
@@ -316,7 +330,9 @@ def main():
     for pn, prep in PREPS.items():
         for name in NAMES:
             chk.add_task(f"{pn}-{name}", task, prep=prep, stack=(name,))
-        chk.add_task(f"write-{pn}", task_write, prep=prep if pn != "names" else PREPS["default"])
+        for how in ("default", "empty-prepend", "copy-prepend", "stack"):
+            if pn in ("raw", "default"):
+                chk.add_task(f"write-{pn}-{how}", task_write, prep=prep, how=how)
     pairs = list(itertools.permutations(NAMES, 2)) if chk.tier == "thorough" else [
         ("remove", "addq"), ("separate", "splitnames"), ("splitnames", "mergeparts"), ("monthint", "monthlong"), ("normkeys", "sortalpha"),
         ("sortblocks", "remove"), ("remove", "sortblocks"), ("latexenc", "latexdec"), ("resolve", "sortcustom"), ("add{", "sortblocks2")]
